@@ -7,17 +7,19 @@ import Mps.Frame
 namespace Mps
 
 inductive TVal where
-  | bytes   (b : Option Bytes)                 -- []byte (nil ⇒ error)
-  | bigint  (v : Option (Bool × Nat))          -- *big.Int: (negative?, |v|); Gob encoding
-  | id      (b : Bytes)                        -- party.ID ("" ⇒ error)
-  | ids     (l : Option (List Bytes))          -- party.IDSlice
-  | rid     (b : Option Bytes)                 -- types.RID
+  | nilv                                       -- a nil []byte / *big.Int / IDSlice / RID / Commitment / … : refused
+  | bytes   (b : Bytes)                        -- []byte
+  | bigint  (neg : Bool) (abs : Nat)           -- *big.Int: (negative?, |v|); Gob encoding
+  | id      (b : Bytes)                        -- party.ID, non-empty (the empty ID is refused: `nilv`)
+  | ids     (l : List Bytes)                   -- party.IDSlice
+  | rid     (b : Bytes)                        -- types.RID
   | thr     (n : Nat)                          -- types.ThresholdWrapper (uint32)
   | rnd     (n : Nat)                          -- round.Number (uint16, written as uint64)
-  | sigmsg  (b : Option Bytes)                 -- types.SigningMessage (nil ⇒ other domain)
-  | bwd     (dom : Bytes) (b : Option Bytes)   -- hash.BytesWithDomain
-  | com     (b : Option Bytes)                 -- hash.Commitment
-  | decom   (b : Option Bytes)                 -- hash.Decommitment
+  | sigmsgNil                                  -- types.SigningMessage(nil): its own domain, empty data
+  | sigmsg  (b : Bytes)                        -- types.SigningMessage
+  | bwd     (dom : Bytes) (b : Bytes)          -- hash.BytesWithDomain
+  | com     (b : Bytes)                        -- hash.Commitment
+  | decom   (b : Bytes)                        -- hash.Decommitment
   | point   (enc : Bytes)                      -- curve.Point via BinaryMarshaler (33 bytes)
   | scalar  (enc : Bytes)                      -- curve.Scalar via BinaryMarshaler (32 bytes)
   | ct      (v : Nat)                          -- *paillier.Ciphertext: 512-byte big endian
@@ -41,29 +43,32 @@ def typeDomains : List (String × String) :=
 def gobBigInt (neg : Bool) (abs : Nat) : Bytes :=
   UInt8.ofNat (2 + (if neg then 1 else 0)) :: natBytes abs
 
-/-- `party.IDSlice.WriteTo` AS THE CODE STANDS: count, then the ids concatenated. -/
-def idsData (l : List Bytes) : Bytes := be64 l.length ++ l.flatten
+/-- `party.IDSlice.WriteTo` as shipped in the pinned snapshot: count, then the bare
+    concatenation of the ids. NOT injective (`MpsProps.C19.idsDataOld_collision`); repaired in
+    /repo by a `fix:` commit, kept here only to state the witness. -/
+def idsDataOld (l : List Bytes) : Bytes := be64 l.length ++ l.flatten
+
+def idsBody : List Bytes → Bytes
+  | [] => []
+  | i :: is => be64 i.length ++ i ++ idsBody is
+
+/-- `party.IDSlice.WriteTo` (after the fix): count, then every id with its 8-byte length. -/
+def idsData (l : List Bytes) : Bytes := be64 l.length ++ idsBody l
 
 def encode : TVal → Option Item
-  | .bytes none => none
-  | .bytes (some b) => some ⟨str "[]byte", b⟩
-  | .bigint none => none
-  | .bigint (some (neg, a)) => some ⟨str "big.Int", gobBigInt neg a⟩
-  | .id b => if b = [] then none else some ⟨str "ID", b⟩
-  | .ids none => none
-  | .ids (some l) => some ⟨str "IDSlice", idsData l⟩
-  | .rid none => none
-  | .rid (some b) => some ⟨str "RID", b⟩
+  | .nilv => none
+  | .bytes b => some ⟨str "[]byte", b⟩
+  | .bigint neg a => some ⟨str "big.Int", gobBigInt neg a⟩
+  | .id b => some ⟨str "ID", b⟩
+  | .ids l => some ⟨str "IDSlice", idsData l⟩
+  | .rid b => some ⟨str "RID", b⟩
   | .thr n => some ⟨str "Threshold", be32 n⟩
   | .rnd n => some ⟨str "Round Number", be64 n⟩
-  | .sigmsg none => some ⟨str "Empty Message", []⟩
-  | .sigmsg (some b) => some ⟨str "Signature Message", b⟩
-  | .bwd _ none => none
-  | .bwd d (some b) => some ⟨d, b⟩
-  | .com none => none
-  | .com (some b) => some ⟨str "Commitment", b⟩
-  | .decom none => none
-  | .decom (some b) => some ⟨str "Decommitment", b⟩
+  | .sigmsgNil => some ⟨str "Empty Message", []⟩
+  | .sigmsg b => some ⟨str "Signature Message", b⟩
+  | .bwd d b => some ⟨d, b⟩
+  | .com b => some ⟨str "Commitment", b⟩
+  | .decom b => some ⟨str "Decommitment", b⟩
   | .point e => some ⟨str "*curve.Secp256k1Point", e⟩
   | .scalar e => some ⟨str "*curve.Secp256k1Scalar", e⟩
   | .ct v => some ⟨str "Paillier Ciphertext", beN 512 v⟩
@@ -84,14 +89,48 @@ def encodeAll : List TVal → List Item × Bool
 end Mps
 
 namespace Mps
-/-- Semantic identity of a typed value: what must be equal for two values to be "the same
-    thing written to the transcript". Single-string payloads collapse to (domain, bytes) — a
-    `BytesWithDomain{"ID", x}` *is* an `ID x` by construction — while structured payloads
-    (the id list) keep their structure. `encode_injective` (MpsProps.C19) says equal encodings
-    imply equal `canon`. -/
-def canon : TVal → TVal
-  | .ids (some l) => .ids (some l)
-  | v => match encode v with
-    | some i => .opaque i.dom i.data
-    | none => v
+
+/-- constructors whose domain tag is fixed by the Go type (everything except the two
+    "bring your own domain" wrappers) -/
+def TVal.fixed : TVal → Bool
+  | .bwd _ _ => false
+  | .opaque _ _ => false
+  | _ => true
+
+def maxLen : Nat := 2 ^ 64
+
+/-- validity domain of a typed value: what the Go types can hold -/
+def TVal.WF : TVal → Prop
+  | .nilv => True
+  | .bytes b => b.length < maxLen
+  | .bigint neg a => (neg = true → a ≠ 0) ∧ (gobBigInt neg a).length < maxLen
+  | .id b => b ≠ [] ∧ b.length < maxLen
+  | .ids l => l.length < maxLen ∧ (∀ i ∈ l, i.length < maxLen) ∧ (idsData l).length < maxLen
+  | .rid b => b.length < maxLen
+  | .thr n => n < 256 ^ 4
+  | .rnd n => n < 256 ^ 8
+  | .sigmsgNil => True
+  | .sigmsg b => b.length < maxLen
+  | .bwd d b => d.length < maxLen ∧ b.length < maxLen
+  | .com b => b.length < maxLen
+  | .decom b => b.length < maxLen
+  | .point e => e.length = 33
+  | .scalar e => e.length = 32
+  | .ct v => v < 256 ^ 512
+  | .pk n => (natBytes n).length < maxLen
+  | .ped n s t => n < 256 ^ 256 ∧ s < 256 ^ 256 ∧ t < 256 ^ 256
+  | .elg l m => l.length = 33 ∧ m.length = 33
+  | .opaque d b => d.length < maxLen ∧ b.length < maxLen
+
+/-- Semantic identity used by the correspondence oracle: two fixed-domain values are the same
+    iff they are equal as values; as soon as a caller-chosen domain is involved the identity
+    is (domain, bytes) — a `BytesWithDomain{"ID", x}` *is* an `ID x` by construction. -/
+def semEq (a b : TVal) : Bool :=
+  if a.fixed && b.fixed then decide (a = b) else decide (encode a = encode b)
+
+def semEqList : List TVal → List TVal → Bool
+  | [], [] => true
+  | a :: as, b :: bs => semEq a b && semEqList as bs
+  | _, _ => false
+
 end Mps
